@@ -112,6 +112,14 @@ def apply_op(pool: dict, op: list) -> str:
             pool[op[1]] = lw.Circuit(_sp(op, 2, op[2]))
         elif name == "unitary":
             u = np.array([[complex(GQ.parse(x)) for x in r] for r in op[2]], dtype=complex)
+            # dtype of the array handed over: a real matrix is given as float64, an integer one (permutations, signs) as
+            # int64, for a third of the blocks each (fixed per op); the values are the same
+            h = zlib.crc32(f"{op!r}#dtype".encode()) % 3
+            if h and not np.any(u.imag):
+                if h == 2 and np.all(u.real == np.round(u.real)):
+                    u = u.real.astype(np.int64)
+                else:
+                    u = u.real.astype(np.float64)
             pool[op[1]] = lw.Unitary(u)
         elif name == "bs":
             _, cid, m1, m2, c, _s, conv, lossab, _rv, _lv, *rest = op
